@@ -83,7 +83,7 @@ def gen_wrap(rng, k):
     net = Net(r, nnodes=1)
     L = net.lines
     L += ["M udp_new 1 1", "M tcp_new 2 1", "M tcp_new 3 1", "M udp_new 4 1", "M tcp_new 5 1"]
-    L.append("M set_next_port %d" % r.choice([65530, 65532, 65533, 65534, 65534, 65535]))
+    L.append("M set_next_port %d" % r.choice([65530, 65532, 65533, 65534, 65534]))   # 65535 is not a reachable value of the counter
     order = [("udp", 1), ("tcp", 2), ("tcp", 3), ("udp", 4), ("tcp", 5)]
     r.shuffle(order)
     for pre, i in order:
